@@ -520,8 +520,24 @@ func Main(ref, opt, unopt []vrt.Entry) {
 func (rn *runner) replay(e vrt.Entry) {
 	sp := rn.spec
 	a, b := "ref", "opt"
-	if sp.Oracle == "optunopt" {
+	switch sp.Oracle {
+	case "optunopt":
 		a, b = "unopt", "opt"
+	case "solo", "refeq-interleaved":
+		rn.replaySolo(e)
+		return
+	case "panic":
+		free := cloneSc(sp.Replay)
+		free.PanicAt = -1
+		fr := Play(rn.impls["opt"], free, PlayOpt{Fuel: Fuel})
+		rn.res.Scenarios++
+		if class, exp, obs, at := rn.panicCheck(fr.Hist, sp.Replay, sp.Replay.PanicAt); class != "" {
+			rn.mismatch(e.Name, "panic", "opt-fault-free", "opt-faulted", sp.Replay, exp, obs, at, class)
+		}
+		return
+	case "depth", "depth-values":
+		rn.depthFunc(e)
+		return
 	}
 	class, exp, obs, at, _ := rn.compare(sp.Oracle, a, b, sp.Replay)
 	rn.res.Scenarios++
